@@ -123,7 +123,8 @@ Inductive output :=
 | OFin (rid : N) (r : hres)        (* ghost: Handle of rid returned r *)
 | OTake (f : frame)                (* conn.Write called with the frame *)
 | OFrame (f : frame)               (* that Write succeeded: the frame is on the wire *)
-| OLost (f : frame)                (* the writer took the frame but never wrote it *)
+| OLost (f : frame)                (* the writer took the frame but WriteFcall refused it (ctx done): nothing written *)
+| OWriteErr (f : frame)            (* that Write failed *)
 | OReturn                          (* the serve loop returned *)
 | OStop.                           (* handler.Stop called *)
 
@@ -269,7 +270,7 @@ Definition step (v : variant) (s : st) (e : event) : option (st * list output) :
       end
   | EWriteFail =>
       match wr s with
-      | WBusy f => Some (set_closed (set_wr s WDead) true, [OLost f])
+      | WBusy f => Some (set_closed (set_wr s WDead) true, [OWriteErr f])
       | _ => None
       end
   | EWriterQuit =>
